@@ -300,6 +300,10 @@ func (t *Transaction) DecodeHashableFields(buf []byte) error {
 		return errors.New("additional data after the signed part")
 	}
 	t.Scripts = make([]Witness, 0)
+	// The hash is defined by the canonical encoding (see NewTransactionFromBytes).
+	if canon, err := t.EncodeHashableFields(); err != nil || !bytes.Equal(canon, buf) {
+		return t.createHash()
+	}
 	return nil
 }
 
